@@ -87,6 +87,15 @@ Fixpoint wf (x : item) : bool :=
   | IEmpty => false
   end.
 
+(** What the Go constructors accept without a deferred error: [wf] plus EmptyItem anywhere
+    (NewListItem does not refuse an EmptyItem child). Used by the correspondence driver only. *)
+Fixpoint ctor_ok (x : item) : bool :=
+  match x with
+  | IList cs => (zlen cs <=? max_size) && forallb ctor_ok cs
+  | IEmpty => true
+  | _ => wf x
+  end.
+
 Fixpoint depth (x : item) : Z :=
   match x with
   | IList cs => 1 + fold_right (fun c a => Z.max (depth c) a) 0 cs
